@@ -209,6 +209,7 @@ def rule_kind_restrictions(check, rule, merge_model=None, embed_model=None, mask
     if embed_model is not None:
         m = embed_model
         for p, items in m.ret_paths:
+            contents = None
             for e in p.effects:
                 for t in list(e.args):
                     for s in subterms(t):
@@ -221,6 +222,16 @@ def rule_kind_restrictions(check, rule, merge_model=None, embed_model=None, mask
                                 b = m.sides.bucket(base[1])
                                 if b is not None:
                                     sk = m.proto.kind_at(b[1])
+                                elif base[1][0] in ('L', 'D'):
+                                    # elements of an output bucket built so far: the kind its runs have (when they agree)
+                                    if contents is None:
+                                        contents = m.bucket_contents(p)
+                                    segs = contents.get(base[1]) or []
+                                    kinds_ = set(s_.kind for s_ in segs if not s_.unknown)
+                                    if segs and len(kinds_) == 1 and not any(s_.unknown for s_ in segs):
+                                        sk = list(kinds_)[0]
+                                    elif not segs:
+                                        continue          # an empty bucket: nothing is converted
                             judge(e.node, sk, tgt, '_signatures:_embed', show(s))
     if mask_model is not None:
         m = mask_model
